@@ -16,7 +16,8 @@ RULE = ("(i) the finite header space is enumerated: delimited streams with an em
         "streams with every options-row length 2..127 and every two-byte row-length varint - ground truth is the "
         "construction mode. (ii) real streams: hand-encoded minimal streams whose first frame / options row has length "
         "exactly 10 (and 9, 11, 127, 128, 300), and pyjelly serializer output in both modes with the stream name padded so "
-        "that the options row length sweeps 8..140 - both modes must be detected by get_options_and_frames and parse to "
+        "that the options row length sweeps 8..140, and with a literal sized so that the frame length sweeps 118..136 and "
+        "16370..16530 (1/2/3-byte length varints) - both modes must be detected by get_options_and_frames and parse to "
         "the same statements. Non-trivial: headers containing 0x0A in byte 1 or 2; distinct by header bytes / stream bytes.")
 ASSUMPTIONS = [
     "domain as stated by the property: the first frame is empty or starts with a row (no metadata-only first frame)",
@@ -24,7 +25,7 @@ ASSUMPTIONS = [
 ]
 ANCHORS = ["pyjelly/parse/ioutils.py", "pyjelly/serialize/ioutils.py", "pyjelly/integrations/rdflib/serialize.py"]
 MARKERS = {"hint": ("pyjelly/parse/ioutils.py", r"magic = 0x0A")}
-REQUIRED_OBSERVED = ["headers-checked", "paired-streams-parsed"]
+REQUIRED_OBSERVED = ["headers-checked", "paired-streams-parsed", "boundary-frame-lengths"]
 MIN_NONTRIVIAL = 100
 MANIFEST = {
     "text": "Enumerates every 3-byte header a valid stream can start with in either mode (ground truth = how it was "
@@ -187,6 +188,47 @@ def pyjelly_pairs(ctx, rng):
                                "summary": "pyjelly delimited and non-delimited outputs parse differently"})
 
 
+def boundary_frames(ctx, rng):
+    """pyjelly output (both modes) whose only frame is 120..135 and 16370..16530 bytes long (1/2/3-byte length varints)."""
+    seen = set()
+    for target_lo, target_hi in ((118, 136), (16370, 16530)):
+        k = max(0, target_lo - 80)
+        while True:
+            stmts = [(("iri", "http://e/s"), ("iri", "http://e/p"), ("lit", "x" * k, None, None))]
+            cfg = {"integration": "generic", "physical": 1, "entry": "stream_frames_gen", "frame_size": 250,
+                   "preset": (8, 4, 0), "logical": 1, "generalized": True, "rdf_star": True, "stream_name": ""}
+            out = {}
+            L = None
+            for delimited in (True, False):
+                cfg["delimited"] = delimited
+                data = pj.serialize(cfg, stmts)
+                if not delimited:
+                    L = len(data)
+                try:
+                    hint_ok = delimited_jelly_hint(data[:3]) == delimited
+                    out[delimited] = T.norm_events(pj.parse("generic", "flat", data))
+                except Exception as ex:  # noqa: BLE001
+                    out[delimited] = f"raised {type(ex).__name__}: {str(ex)[:80]}"
+                    hint_ok = True
+                if not hint_ok:
+                    out[delimited] = "misclassified"
+            if L > target_hi:
+                break
+            k += 1
+            if L < target_lo or L in seen:
+                continue
+            seen.add(L)
+            ctx.observe("paired-streams-parsed")
+            ctx.observe("boundary-frame-lengths")
+            want = T.norm_events([("stmt", s) for s in stmts])
+            if out[True] != want or out[False] != want:
+                ctx.violation({"clause": "paired-parse-differs", "frame_length": L, "cfg": dict(cfg), "stmts": T.to_json(stmts),
+                               "summary": f"single frame of {L} bytes: delimited -> "
+                                          f"{out[True] if isinstance(out[True], str) else 'ok'}, non-delimited -> "
+                                          f"{out[False] if isinstance(out[False], str) else 'ok'}"})
+            ctx.case(("boundary", L), True, sample={"kind": "boundary-frame", "frame_length": L})
+
+
 def run_shard(ctx):
     rng = ctx.rng("hdr")
     for mode, hdr, desc in headers(ctx.tier, ctx.shard, ctx.nshards, rng):
@@ -200,6 +242,8 @@ def run_shard(ctx):
         nt = 0x0A in hdr[1:3]
         ctx.case(("h", hdr.hex(), mode), nt, sample={"kind": "header", "header": hdr.hex(), "mode": desc} if nt else None)
     ctx.extra["headers_complete"] = True
+    if ctx.shard == 1 % ctx.nshards:
+        boundary_frames(ctx, rng)
     if ctx.shard == 0:
         for desc, o, first, rest in real_stream_cases(rng):
             w = judge_pair(desc, first, rest)
